@@ -91,6 +91,29 @@ def _token_flag(fn, g, mf, header, token):
     return None, False
 
 
+def _registry_entry(fn, name):
+    """every assignment of the local `name` in fn takes an entry out of PERMESSAGE_COMPRESSION_EXTENSION"""
+    defs = [st.value for st in walk_no_defs(fn.node) if isinstance(st, ast.Assign) and any(isinstance(t, ast.Name) and t.id == name for t in st.targets)]
+    return bool(defs) and all(isinstance(v, ast.Subscript) and norm.text(v.value) == "PERMESSAGE_COMPRESSION_EXTENSION" for v in defs)
+
+
+def _unpacked_name(fn, callee_suffix, index, default):
+    """the local at position `index` of the tuple target that unpacks the result of a call to `callee_suffix` (whatever it is called)"""
+    for st in walk_no_defs(fn.node):
+        if isinstance(st, ast.Assign) and isinstance(st.value, ast.Call) and (call_name(st.value) or "").split(".")[-1] == callee_suffix and \
+                isinstance(st.targets[0], ast.Tuple) and len(st.targets[0].elts) > index and isinstance(st.targets[0].elts[index], ast.Name):
+            return st.targets[0].elts[index].id
+    return default
+
+
+def _assigned_from(fn, pred, default):
+    """the local assigned a value satisfying pred (first one), whatever it is called"""
+    for st in sorted((x for x in walk_no_defs(fn.node) if isinstance(x, ast.Assign)), key=lambda x: x.lineno):
+        if len(st.targets) == 1 and isinstance(st.targets[0], ast.Name) and pred(st.value):
+            return st.targets[0].id
+    return default
+
+
 def rule_server(ctx):
     ctx.rule("C07.1-server-obligations")
     an = get_analysis(ctx)
@@ -102,7 +125,8 @@ def rule_server(ctx):
     A = acc[0][0]
     F = mf.at(A)
     H = "self.http_headers"
-    CNT = "http_headers_cnt"
+    CNT = _unpacked_name(fn, "parseHttpHeader", 2, "http_headers_cnt")
+    frag = _unpacked_name(fn, "urlparse", 5, "fragment")
 
     def single(h):
         return ("lt", ("c", 1), ("e", f"{CNT}['{h}']"), False)
@@ -124,7 +148,7 @@ def rule_server(ctx):
         ("request line has exactly 3 parts", [("eq", f"len({rl})", ("c", 3), True)]),
         ("method is GET", [("eq", f"{rl}[0].strip()", ("c", "GET"), True)]),
         ("HTTP version is HTTP/1.1", [("eq", f"len({vs})", ("c", 2), True), ("eq", f"{vs}[0]", ("c", "HTTP"), True), ("eq", f"{vs}[1]", ("c", "1.1"), True)]),
-        ("request target has no fragment", [("eq", "fragment", ("c", ""), True)]),
+        ("request target has no fragment", [("eq", frag, ("c", ""), True)]),
         ("Host header present", [present("host")]),
         ("Host header single", [single("host")]),
         ("Upgrade header present", [present("upgrade")]),
@@ -206,7 +230,7 @@ def rule_server(ctx):
                        "after failHandshake() the acceptance site is still reachable", fn.loc(c))
     # stored key is the validated key
     wk = [n for n, v in find_assign_nodes(g, "_wskey")]
-    ctx.ob("server: the validated key is the one remembered for the accept digest", len(wk) == 1 and norm.text(wk[0].ast.value) == "key" and
+    ctx.ob("server: the validated key is the one remembered for the accept digest", len(wk) == 1 and norm.text(wk[0].ast.value) == key and
            g.always_preceded_by(A, lambda x: x is wk[0]), "_wskey not assigned from the validated key", fn.loc())
 
 
@@ -221,7 +245,7 @@ def rule_client(ctx):
     ctx.require(len(acc) == 1, "client processHandshake: state = OPEN not found")
     A = acc[0]
     F = mf.at(A)
-    H, CNT = "self.http_headers", "http_headers_cnt"
+    H, CNT = "self.http_headers", _unpacked_name(fn, "parseHttpHeader", 2, "http_headers_cnt")
     from .common import local_canon, name_for, canon_text
     canon = local_canon(fn)
     sl = name_for(fn, "self.http_status_line.split()", canon)
@@ -253,31 +277,38 @@ def rule_client(ctx):
     for name, facts in obligations:
         ctx.ob(f"client: {name}", _has(F, *facts), f"state = OPEN is reachable without `{name}` having been established", fn.loc(A.ast))
     # extensions: each one known, not repeated, parsed ok, accepted
-    loops = [n for n in g.stmt_nodes() if n.kind == "for" and norm.text(n.ast.iter) == "websocket_extensions"]
+    # roles, not names: the parsed header list, the loop variables, the registry entry and the application's verdict
+    wexts = _assigned_from(fn, lambda v: isinstance(v, ast.Call) and norm.text(v.func) == "self._parseExtensionsHeader", "websocket_extensions")
+    loops = [n for n in g.stmt_nodes() if n.kind == "for" and norm.text(n.ast.iter) == wexts]
     ctx.require(len(loops) == 1, "client: extension loop not found")
     L = loops[0]
-    ext_parse = [n for n, v in [(n, n.ast.value) for n in g.stmt_nodes() if n.kind == "stmt" and isinstance(n.ast, ast.Assign) and norm.text(n.ast.targets[0]) == "websocket_extensions"]]
+    lt_ = L.ast.target
+    XN = lt_.elts[0].id if isinstance(lt_, ast.Tuple) and lt_.elts and isinstance(lt_.elts[0], ast.Name) else "extension"
+    ACC = _assigned_from(fn, lambda v: isinstance(v, ast.Call) and norm.text(v.func) == "self.perMessageCompressionAccept", "accept")
+    PM = _assigned_from(fn, lambda v: isinstance(v, ast.Subscript) and norm.text(v.value) == "PERMESSAGE_COMPRESSION_EXTENSION", "PMCE")
+    ext_parse = [n for n, v in [(n, n.ast.value) for n in g.stmt_nodes() if n.kind == "stmt" and isinstance(n.ast, ast.Assign) and norm.text(n.ast.targets[0]) == wexts]]
     ok = len(ext_parse) == 1 and ("lt", ("c", 1), ("e", f"{CNT}['sec-websocket-extensions']"), False) in mf.at(ext_parse[0])
     ctx.ob("client: Sec-WebSocket-Extensions single", ok, "duplicate extensions header accepted", fn.loc())
     pm = [n for n, v in find_assign_nodes(g, "_perMessageCompress")]
     ctx.require(len(pm) == 1, "client: PMCE activation site not found")
     P = pm[0]
     FP = mf.at(P)
-    ctx.ob("client: extension must be a known compression extension", ("in", "extension", ("e", "PERMESSAGE_COMPRESSION_EXTENSION"), True) in FP, "PMCE created for unknown extension", fn.loc(P.ast))
+    ctx.ob("client: extension must be a known compression extension", ("in", XN, ("e", "PERMESSAGE_COMPRESSION_EXTENSION"), True) in FP, "PMCE created for unknown extension", fn.loc(P.ast))
     ctx.ob("client: a second compression extension is refused", ("is", "self._perMessageCompress", ("c", None), True) in FP, "repeated PMCE not refused", fn.loc(P.ast))
-    ctx.ob("client: application accept policy approved", ("is", "accept", ("c", None), False) in FP, "PMCE created although accept is None", fn.loc(P.ast))
+    ctx.ob("client: application accept policy approved", ("is", ACC, ("c", None), False) in FP, "PMCE created although accept is None", fn.loc(P.ast))
     # unknown extension fails: the F edge of `extension in REGISTRY` leads to return failHandshake
-    known = [n for n in g.stmt_nodes() if n.kind == "test" and norm.atoms(n.ast, True, res) == [("in", "extension", ("e", "PERMESSAGE_COMPRESSION_EXTENSION"), True)]]
+    known = [n for n in g.stmt_nodes() if n.kind == "test" and norm.atoms(n.ast, True, res) == [("in", XN, ("e", "PERMESSAGE_COMPRESSION_EXTENSION"), True)]]
     ok = len(known) == 1 and (known[0], False) in _fail_return_edges(g)
     ctx.ob("client: an extension it does not know fails the handshake", ok, "unknown extensions in the response are tolerated", fn.loc())
     # parse wrapped
-    parse = [(n, c) for n in g.stmt_nodes() for c in node_calls(n) if norm.text(c.func) == "PMCE['Response'].parse"]
+    parse = [(n, c) for n in g.stmt_nodes() for c in node_calls(n) if norm.text(c.func) == f"{PM}['Response'].parse"]
     ok = len(parse) == 1 and any(lab and lab[0] == "exc" for m, lab in parse[0][0].succ)
     hs = [m for m, lab in parse[0][0].succ if lab and lab[0] == "exc"] if parse else []
     ok = ok and all(any(isinstance(s.ast, ast.Return) and isinstance(s.ast.value, ast.Call) and self_call(s.ast.value, "failHandshake") for s, _ in h.succ) for h in hs)
     ctx.ob("client: response parameters that do not parse fail the handshake", bool(ok), "Response.parse not wrapped into try -> failHandshake", fn.loc())
-    ap = [n for n in g.stmt_nodes() if n.kind == "stmt" and isinstance(n.ast, ast.Assign) and norm.text(n.ast.targets[0]) == "accept"]
-    ctx.ob("client: accept policy asked with the parsed response", len(ap) == 1 and norm.text(ap[0].ast.value) == "self.perMessageCompressionAccept(pmceResponse)", "accept call changed", fn.loc())
+    ap = [n for n in g.stmt_nodes() if n.kind == "stmt" and isinstance(n.ast, ast.Assign) and norm.text(n.ast.targets[0]) == ACC]
+    RESP = _assigned_from(fn, lambda v: isinstance(v, ast.Call) and norm.text(v.func) == f"{PM}['Response'].parse", "pmceResponse")
+    ctx.ob("client: accept policy asked with the parsed response", len(ap) == 1 and norm.text(ap[0].ast.value) == f"self.perMessageCompressionAccept({RESP})", "accept call changed", fn.loc())
     # subprotocol
     spn = [n for n, v in find_assign_nodes(g, "websocket_protocol_in_use") if norm.text(v) != "None"]
     spv = name_for(fn, "str(self.http_headers['sec-websocket-protocol'].strip())", canon)
@@ -515,20 +546,29 @@ def rule_answer_subset(ctx):
     except AnalysisError as e:
         raise AnalysisError(f"[C07.5-answer-subset-of-offer] succeedHandshake outside the modelled subset: {e}")
     ctx.ob("server: chosen subprotocol must be None or one the client offered (else raise) [6 cells]", not probs, "; ".join(probs[:2]), fn.loc())
-    ctx.ob("server: the checked value is the one used and announced", norm.text(U.ast.value) == "protocol", "websocket_protocol_in_use not the checked value", fn.loc())
+    # the checked value: the local tested for membership in the offered list on the way to the store (whatever it is called)
+    checked_ = {norm.text(x_.left) for x_ in walk_no_defs(fn.node) if isinstance(x_, ast.Compare) and len(x_.ops) == 1 and isinstance(x_.ops[0], (ast.In, ast.NotIn))
+                and norm.text(x_.comparators[0]) == "self.websocket_protocols"}
+    ctx.ob("server: the checked value is the one used and announced", norm.text(U.ast.value) in (checked_ or {"protocol"}), "websocket_protocol_in_use not the checked value", fn.loc())
     hdr = [s for s in walk_no_defs(fn.node) if isinstance(s, ast.AugAssign) and "Sec-WebSocket-Protocol" in norm.text(s.value)]
     ctx.ob("server: announced subprotocol is websocket_protocol_in_use", len(hdr) == 1 and "{self.websocket_protocol_in_use}" in norm.text(hdr[0].value), "header value changed", fn.loc())
     # extension responses come only from accepted offers that were parsed from the request
-    appends = [c for c in calls_in(fn.node) if norm.text(c.func) == "extensionResponse.append"]
-    ok = len(appends) == 1 and norm.text(appends[0].args[0]) == "accept.get_extension_string()"
+    # roles, not names: the application's verdict, the offer list handed to it, the registry entry, the list of extension answers
+    ACC = _assigned_from(fn, lambda v: isinstance(v, ast.Call) and norm.text(v.func) == "self.perMessageCompressionAccept", "accept")
+    acc_calls = [c for c in calls_in(fn.node) if norm.text(c.func) == "self.perMessageCompressionAccept" and len(c.args) == 1 and isinstance(c.args[0], ast.Name)]
+    OFFERS = acc_calls[0].args[0].id if len(acc_calls) == 1 else "pmceOffers"
+    PM = _assigned_from(fn, lambda v: isinstance(v, ast.Subscript) and norm.text(v.value) == "PERMESSAGE_COMPRESSION_EXTENSION", "PMCE")
+    appends = [c for c in calls_in(fn.node) if isinstance(c.func, ast.Attribute) and c.func.attr == "append" and isinstance(c.func.value, ast.Name) and c.args
+               and norm.text(c.args[0]).endswith(".get_extension_string()")]
+    ok = len(appends) == 1 and norm.text(appends[0].args[0]) == f"{ACC}.get_extension_string()"
     ctx.ob("server: extension response built only from the accepted offer", ok, "extensionResponse source changed", fn.loc())
-    offers = [c for c in calls_in(fn.node) if norm.text(c.func) == "pmceOffers.append"]
+    offers = [c for c in calls_in(fn.node) if norm.text(c.func) == f"{OFFERS}.append"]
     loops = [n for n in walk_no_defs(fn.node) if isinstance(n, ast.For) and norm.text(n.iter) == "self.websocket_extensions"]
     ctx.ob("server: offers are parsed from the client's extension list only", len(offers) == 1 and len(loops) == 1 and any(offers[0] is x for x in ast.walk(loops[0])),
            "offer list no longer fed from the request's extensions", fn.loc())
-    acc = [s for s in walk_no_defs(fn.node) if isinstance(s, ast.Assign) and norm.text(s.targets[0]) == "accept"]
-    ctx.ob("server: accept policy asked with the client's offers", len(acc) == 1 and norm.text(acc[0].value) == "self.perMessageCompressionAccept(pmceOffers)", "accept call changed", fn.loc())
-    parse = [(n, c) for n in g.stmt_nodes() for c in node_calls(n) if norm.text(c.func) == "PMCE['Offer'].parse"]
+    acc = [s for s in walk_no_defs(fn.node) if isinstance(s, ast.Assign) and norm.text(s.targets[0]) == ACC]
+    ctx.ob("server: accept policy asked with the client's offers", len(acc) == 1 and norm.text(acc[0].value) == f"self.perMessageCompressionAccept({OFFERS})", "accept call changed", fn.loc())
+    parse = [(n, c) for n in g.stmt_nodes() for c in node_calls(n) if norm.text(c.func) == f"{PM}['Offer'].parse"]
     ok = len(parse) == 1 and any(lab and lab[0] == "exc" for m, lab in parse[0][0].succ)
     ctx.ob("server: offers that do not parse fail the handshake", ok, "Offer.parse not wrapped", fn.loc())
 
@@ -659,7 +699,7 @@ def rule_escape(ctx):
         sites = ef.may_raise(fn)
         seen = set()
         for s in sites:
-            if okreg and s.exc == "KeyError" and s.what.startswith("PMCE["):
+            if okreg and s.exc == "KeyError" and isinstance(s.node, ast.Subscript) and isinstance(s.node.value, ast.Name) and _registry_entry(s.fn, s.node.value.id):
                 continue
             k = f"{s.exc} from `{s.what}` in {s.fn.qualname}"
             if k in seen:
